@@ -252,30 +252,37 @@ Qed.
 
 (* the printed form starts with "b" and ends with a digit or "*": strip() leaves it alone *)
 Lemma oz_str_last l : (match l with Some z => (0 <= z)%Z | None => True end) ->
-  exists pre x, oz_str l = pre ++ [x] /\ is_space_str x = false.
+  exists pre x, oz_str l = pre ++ [x] /\ is_space_str x = false /\ is_ows x = false.
 Proof.
   intros Hl. destruct l as [z|]; cbn [oz_str].
   - destruct (str_of_Z_nonneg z Hl) as [D N].
     destruct (@exists_last _ (str_of_Z z) N) as [pre [x E]]. exists pre, x. split; [exact E|].
     rewrite E in D. apply Forall_app in D. destruct D as [_ D]. inversion D as [|? ? Hx _]; subst.
-    unfold is_digit in Hx. unfold is_space_str. lia.
-  - exists [], 42. split; reflexivity.
+    unfold is_digit in Hx. unfold is_space_str, is_ows. lia.
+  - exists [], 42. repeat split; reflexivity.
 Qed.
 
-Lemma crange_str_strip c : crange_ok c -> strip_by is_space_str (crange_str c) = crange_str c.
+Lemma crange_str_strip_gen f c : f 98 = false -> (forall x, is_space_str x = false /\ is_ows x = false -> f x = false) ->
+  crange_ok c -> strip_by f (crange_str c) = crange_str c.
 Proof.
-  intros Hc.
+  intros Hb Hf Hc.
   assert (Hl : match snd c with Some z => (0 <= z)%Z | None => True end).
   { destruct c as [[[s|] [e|]] [l|]]; cbn in *; try tauto; try lia. }
-  destruct (oz_str_last (snd c) Hl) as [pre [x [E Hx]]].
+  destruct (oz_str_last (snd c) Hl) as [pre [x [E Hx0]]]. pose proof (Hf x Hx0) as Hx.
   destruct c as [[[s|] [e|]] l]; cbn [crange_ok] in Hc; try tauto; cbn [snd] in E; cbn [crange_str].
   - unfold s_bytes_sp, s_bytes. rewrite E. cbn [app].
     apply (strip_by_noop _ _ 98 x ([121; 116; 101; 115; 32] ++ str_of_Z s ++ [45] ++ str_of_Z (e - 1) ++ [47] ++ pre));
-      [left|reflexivity|exact Hx].
+      [left|exact Hb|exact Hx].
     cbn [app]. do 6 f_equal. repeat (rewrite <- app_assoc; cbn [app]). reflexivity.
   - unfold s_bytes_sp, s_bytes. rewrite E. cbn [app].
-    apply (strip_by_noop _ _ 98 x ([121; 116; 101; 115; 32; 42; 47] ++ pre)); [left; reflexivity|reflexivity|exact Hx].
+    apply (strip_by_noop _ _ 98 x ([121; 116; 101; 115; 32; 42; 47] ++ pre)); [left; reflexivity|exact Hb|exact Hx].
 Qed.
+
+Lemma crange_str_strip c : crange_ok c -> strip_by is_space_str (crange_str c) = crange_str c.
+Proof. apply crange_str_strip_gen; [reflexivity|tauto]. Qed.
+
+Lemma crange_str_strip_ows c : crange_ok c -> strip_by is_ows (crange_str c) = crange_str c.
+Proof. apply crange_str_strip_gen; [reflexivity|tauto]. Qed.
 
 Lemma crange_str_nonempty c : crange_str c <> [].
 Proof. destruct c as [[[s|] [e|]] l]; discriminate. Qed.
@@ -317,7 +324,7 @@ Lemma serialize_content_range_triple s e l : crange_ok (s, e, l) ->
 Proof.
   intros Hc. cbn [serialize_content_range].
   pose proof (crange_ok_init (s, e, l) Hc) as Hi. cbn [fst snd] in Hi. rewrite Hi.
-  rewrite (crange_str_strip _ Hc).
+  rewrite (crange_str_strip_ows _ Hc).
   destruct (crange_str (s, e, l)) eqn:E; [exfalso; exact (crange_str_nonempty _ E)|reflexivity].
 Qed.
 
